@@ -161,13 +161,27 @@ def union_t(cs):
     return T("union", Union[tuple(c.hint for c in cs)], "Union[" + ",".join(c.skel for c in cs) + "]", cs)  # type: ignore[arg-type]
 
 
+import collections.abc as _abc
+import typing as _typing
+
+LIST_FLAVOURS = {"List": List, "Sequence": Sequence, "MutableSequence": _typing.MutableSequence, "Iterable": _typing.Iterable, "abc.Sequence": _abc.Sequence,
+                 "abc.MutableSequence": _abc.MutableSequence, "abc.Iterable": _abc.Iterable, "list": list}
+DICT_FLAVOURS = {"Dict": Dict, "Mapping": _typing.Mapping, "MutableMapping": _typing.MutableMapping, "abc.Mapping": _abc.Mapping, "abc.MutableMapping": _abc.MutableMapping, "dict": dict}
+SET_FLAVOURS = {"Set": Set, "MutableSet": _typing.MutableSet, "abc.MutableSet": _abc.MutableSet, "set": set}
+
+
 def list_t(c, flavour="List"):
-    h = {"List": List, "Sequence": Sequence}[flavour]
+    h = LIST_FLAVOURS[flavour]
     return T("list", h[c.hint], f"{flavour}[{c.skel}]", [c], extra=flavour)
 
 
-def dict_t(c, key=str):
-    return T("dict", Dict[key, c.hint], f"Dict[{key.__name__},{c.skel}]", [c], extra=key)
+def dict_t(c, key=str, flavour="Dict"):
+    return T("dict", DICT_FLAVOURS[flavour][key, c.hint], f"{flavour}[{key.__name__},{c.skel}]", [c], extra=key)
+
+
+def rare_flavour(rng, table, usual):
+    """the usual spelling mostly; one time in seven another spelling of the same container (typing / collections.abc / builtin)"""
+    return rng.choice([k for k in table if k != usual]) if rng.random() < 0.15 else usual
 
 
 def tuple_t(cs):
@@ -178,8 +192,8 @@ def vtuple_t(c):
     return T("vtuple", Tuple[c.hint, ...], f"Tuple[{c.skel},...]", [c])
 
 
-def set_t(c):
-    return T("set", Set[c.hint], f"Set[{c.skel}]", [c])
+def set_t(c, flavour="Set"):
+    return T("set", SET_FLAVOURS[flavour][c.hint], f"{flavour}[{c.skel}]", [c])
 
 
 HASHABLE_LEAF_KINDS = {"str", "int", "float", "bool", "enum", "rnum", "rstr", "literal"}
@@ -208,16 +222,16 @@ def gen_type(rng, depth=3, profile="full"):
             return cs[0] if cs else gen_leaf(rng, profile)
         return union_t(cs)
     if r < 0.50:
-        return list_t(gen_type(rng, depth - 1, profile), "Sequence" if rng.random() < 0.1 else "List")
+        return list_t(gen_type(rng, depth - 1, profile), rare_flavour(rng, LIST_FLAVOURS, "List"))
     if r < 0.66:
-        return dict_t(gen_type(rng, depth - 1, profile), int if rng.random() < 0.25 else str)
+        return dict_t(gen_type(rng, depth - 1, profile), int if rng.random() < 0.25 else str, rare_flavour(rng, DICT_FLAVOURS, "Dict"))
     if r < 0.78:
         return tuple_t([gen_type(rng, depth - 1, profile) for _ in range(rng.choice([1, 2, 2, 3]))])
     if r < 0.86:
         return vtuple_t(gen_type(rng, depth - 1, profile))
     if r < 0.93:
         c = gen_leaf(rng, "hashable")
-        return set_t(c)
+        return set_t(c, rare_flavour(rng, SET_FLAVOURS, "Set"))
     return gen_leaf(rng, profile)
 
 
